@@ -142,6 +142,36 @@ def _ensure_disk_file(path, text):
     os.replace(tmp, path)
 
 
+class ParsoProbe:
+    """records what parso itself was asked and what it returned (wrapper around Grammar.parse, no
+    source edit).  The premise of the property is a promise of PARSO - the tree it hands out for a
+    text equals a from-scratch parse of that text - so it is judged on parso's own results, not on
+    whatever tree a Script ends up holding: a Script that does not take its tree from parso in a
+    step (a remembered node, ...) is not excused by it."""
+    inst = None
+
+    def __init__(self):
+        from parso.grammar import Grammar
+        self.calls = None
+        orig = Grammar.parse
+        me = self
+
+        def parse(self_, code=None, **kwargs):
+            node = orig(self_, code, **kwargs)
+            if me.calls is not None:
+                # dumped now: the diff parser mutates this very object on the next re-parse
+                me.calls.append({'code': code, 'path': kwargs.get('path'), 'node': node,
+                                 'dump': _tree_dump(node) if isinstance(code, str) else None})
+            return node
+        Grammar.parse = parse
+
+    @classmethod
+    def get(cls):
+        if cls.inst is None:
+            cls.inst = ParsoProbe()
+        return cls.inst
+
+
 class _FakeTime:
     """stands in for the `time` module inside jedi/cache.py"""
     def __init__(self):
@@ -256,6 +286,7 @@ def run_history(item):
     from jedi import parser_utils
     from jedi.cache import _time_caches
     probes = Probes.get() if item.get('probe', True) else None
+    pprobe = ParsoProbe.get()
     if probes:
         probes.items = []      # ordinals are per history
     # the clock of jedi/cache.py (time caches) is a logical one the history controls
@@ -274,6 +305,7 @@ def run_history(item):
             _ensure_disk_file(path, item['texts'][0])
     steps = []
     script = None
+    tainted = []
     for si, text in enumerate(item['texts']):
         rec = {}
         script = None
@@ -281,7 +313,11 @@ def run_history(item):
             probes.trace = None
             probes.sig_trace = None
         clock.now += ticks[si]
-        script = jedi.Script(text, path=path)
+        pprobe.calls = []
+        try:
+            script = jedi.Script(text, path=path)
+        finally:
+            pcalls, pprobe.calls = pprobe.calls, None
         grammar = script._inference_state.grammar
         key = script.path
         it = parser_cache.get(grammar._hashed, {}).get(key)
@@ -293,9 +329,22 @@ def run_history(item):
         if it is not None:
             rec['lines_ok'] = it.lines == parso.split_lines(text, keepends=True)
             rec['node_ok'] = it.node is script._module_node
-        # the property's premise: the incrementally parsed tree equals a from-scratch parse
+        # the property's premise: the tree parso hands out (incrementally re-parsed, or its cached
+        # node) equals a from-scratch parse.  Judged on every answer parso gave while this Script
+        # was constructed; when parso was not asked at all its promise cannot have failed.
         fresh = parso.parse(text)
-        rec['premise_ok'] = _tree_dump(script._module_node) == _tree_dump(fresh)
+        fresh_dump = _tree_dump(fresh)
+        rec['asked'] = len(pcalls)
+        rec['tree_from_parso'] = any(c['node'] is script._module_node for c in pcalls)
+        bad_calls = [c for c in pcalls if c['dump'] is not None and c['dump'] != (
+            fresh_dump if c['code'] == text else _tree_dump(parso.parse(c['code'])))]
+        tainted += [c['node'] for c in bad_calls]     # node objects parso once got wrong (kept alive)
+        rec['premise_ok'] = not bad_calls and not (
+            not rec['tree_from_parso'] and any(n is script._module_node for n in tainted))
+        # what the Script holds (not a premise: a tree that differs although parso kept its promise
+        # is exactly what the property forbids)
+        rec['tree_ok'] = _tree_dump(script._module_node) == fresh_dump
+        del pcalls
         # queries
         if probes:
             probes.trace = []
@@ -424,7 +473,12 @@ def gen_histories(ctx, n, rng_name='hist'):
         length = rng.randint(1, 5) if r < 0.5 else rng.randint(6, 12) if r < 0.85 else rng.randint(13, 30)
         if ctx.quick and length > 10:
             length = rng.randint(7, 10)
-        hist = histories.history(rng, length)
+        # every other history is revisit-rich: it returns to earlier states of the buffer (undo,
+        # redo, revert at any distance, toggling), the others only through the rare `undo` edit
+        revisit = [0.0, 0.35, 0.0, 0.6][i % 4]
+        if revisit and length < 4:
+            length += 3
+        hist = histories.history(rng, length, revisit)
         mode = ['nopath', 'path', 'disk'][i % 3]
         texts = [t for _, t in hist]
         npos = 2 if ctx.quick else 4
@@ -525,10 +579,12 @@ def compare_model(ctx, h, res, ans):
         i += 1
         case = {'hid': h['hid'], 'mode': h['mode'], 'step': si}
         real = {'item': rec.get('item'), 'new_item': rec.get('new_item'), 'has_item': rec['has_item'],
-                'lines_ok': rec.get('lines_ok'), 'node_ok': rec.get('node_ok')}
+                'lines_ok': rec.get('lines_ok'), 'node_ok': rec.get('node_ok'),
+                'asked_parso': rec.get('asked', 1) > 0}
         mitem = m.get('item') or {}
         model = {'item': mitem.get('gen'), 'new_item': m.get('new_item'), 'has_item': m.get('item') is not None,
-                 'lines_ok': m.get('cur') == tid, 'node_ok': mitem.get('obj') == m.get('obj')}
+                 'lines_ok': m.get('cur') == tid, 'node_ok': mitem.get('obj') == m.get('obj'),
+                 'asked_parso': m.get('asked')}
         ctx.count('cache-state', (h['hid'], si, 'script'), nontrivial=si > 0,
                   bucket='%s/%s' % (h['mode'], 'new-item' if real['new_item'] else 'reused'),
                   sample={'mode': h['mode'], 'step': si, 'real': real})
@@ -734,6 +790,20 @@ def _run(ctx):
                 ctx.tie_broken('correspondence:cache-state',
                                short({'case': case, 'what': 'item under the Script key does not carry the current text',
                                       'lines_ok': rec.get('lines_ok'), 'node_ok': rec.get('node_ok')}))
+            # the source of the Script's tree (model: obtainTree = parseBuffer, one question to parso
+            # per construction, its answer is the Script's module node)
+            ctx.count('tree-source', (h['hid'], si), nontrivial=si > 0 and h['texts'][si] in h['texts'][:si]
+                      and h['texts'][si] != h['texts'][si - 1],
+                      bucket='%s/%s' % (h['mode'], 'revisit' if h['texts'][si] in h['texts'][:si - 1]
+                                        and h['texts'][si] != h['texts'][si - 1] else
+                                        'same' if si and h['texts'][si] == h['texts'][si - 1] else 'new-text'))
+            if rec.get('asked') != 1 or not rec.get('tree_from_parso') or not rec.get('tree_ok'):
+                ctx.tie_broken('correspondence:tree-source',
+                               short({'case': case, 'what': 'Script.__init__ must ask parso exactly once for the '
+                                      'buffer and hold the node parso returned, whose content is the from-scratch '
+                                      'parse of the text (model: obtainTree = parseBuffer)',
+                                      'asked': rec.get('asked'), 'tree_from_parso': rec.get('tree_from_parso'),
+                                      'tree_equals_fresh_parse': rec.get('tree_ok')}))
             bad = judge(ctx, 'oracle', h, si, rec['answers'], truth_of[(h['hid'], si)], None)
             if bad:
                 suspicious.append((h, si, bad))
